@@ -84,6 +84,18 @@ def two_repartitions():
                    "N6=reshuffle N5 ; N7=cogroup N3 N6 ; OUT N7" % (nsh, rows, a, b))
 
 
+def wide_keyed():
+    """keyed operators over a few hundred distinct keys in one or two shards (every merging / decoding reader works through
+    several of its 128-row buffers), followed by readers that ask for fewer rows than a batch holds"""
+    for n in (300, 600):
+        rows = " ".join("%d:%d" % (i, 1) for i in range(n))
+        for nsh in (1, 2):
+            yield "N0=const %d %s ; N1=reduce N0 add ; N2=filter N1 kmod3 ; OUT N2" % (nsh, rows)
+            yield "N0=const %d %s ; N1=cogroup N0 N0 ; N2=filter N1 vodd ; OUT N2" % (nsh, rows)
+            yield "N0=const %d %s ; N1=map N0 inc ; N2=cogroup N0 N1 ; OUT N2" % (nsh, rows)
+            yield "N0=const %d %s ; N1=reshuffle N0 ; N2=flatmap N1 two ; N3=filter N2 kmod3 ; N4=reduce N3 add ; OUT N4" % (nsh, rows)
+
+
 def direct_and_shuffled():
     """a (materialised or pipelined) slice consumed both without a shuffle and through a shuffle into 1..3 partitions,
     compiled in either order (always run in full)"""
@@ -104,6 +116,9 @@ def gen(r, tier):
         ss = [c for c in ss if r.below(3) == 0]
     for p in ss + list(direct_and_shuffled()) + list(two_repartitions()):
         yield "local CH%d ;; %s" % (r.choice([2, 128]), p)
+    for p in wide_keyed():
+        yield "local ;; " + p
+        yield "%s ;; %s" % (r.choice(["bm M2 P4", "bm M1 P3", "bm M4 P8 MC"]), p)
     # bounded-exhaustive part: all chains of depth 1 (and 2 in the thorough tier; a sample of them in the quick tier)
     for p in exhaustive(1):
         yield "local CH%d ;; %s" % (r.choice([1, 2, 128]), p)
